@@ -1,7 +1,200 @@
-/- Driver glue for C13: case lines `c13.<sub> <args…> | <impl…>` (stub until the property is built) -/
+/-
+  Driver glue for C13.
+    c13.act <plugin> <cfg hex> <ps> <n> events… | cfg-rejected | <n> (<res> <status>)… <stability>
+        no model column for un-modelled plugin bodies: M echoes the implementation's tokens,
+        P is the property oracle SpecC13.actOk on them.
+    c13.pipe <plugin> <cfg hex> <ps> <nl> <label>… <n> events… | in=<a> out=<k> <status>×k left=<m>
+        the action inside a real pipeline; no model column either (M echoes), P = SpecC13.pipeOk
+    c13.pipeout …same… | in=<a> out=0 left=<m>     with the real stdout output plugin
+    c13.registry <n> <name>… | <n> <name>…          M = the names the generator has a grammar for
+    c13.subst <nf> <filter>… <src hex> | ok <hex> | panic:<kind> | cfg-rejected
+        filter: cut first|last <n> | trimto all|left|right <hex> | trim all|left|right <hex>
+              | re <limit> <sep hex> <0|1> <ng> <g>… <re hex> <nsub> <nm> (<2(nsub+1) ints>)…
+    c13.rename <preserve> <n> (<plen> <key>… <name>)… <JTree> | ok <JTree>
+    c13.move allow <tlen> <key>… <nf> (<plen> <key>…)… <JTree> | ok <JTree>
+    c13.move block <target key> <nb> <key>… <JTree> | ok <JTree>
+    c13.tok <mask 1..63> <data hex> | ok <hex>   hash normalizer with the by-bytes patterns of mask
+    c13.utf8 <n> <src hex>×n | ok <hex>×n      (n fields of one event)
+-/
 import FileD.Prelude.Tok
+import FileD.Spec.C13
+import FileD.Model.Act.Subst
+import FileD.Model.Act.Utf8Bytes
+import FileD.Model.Act.HashTok
+import FileD.Model.Act.Fields
+import FileD.Prelude.JTree
 namespace FileD.DrvC13
+open FileD Tok
 
-def handle (_cmd : String) (_args _impl : List String) : Option (String × String) := none
+def okTok (b : Bool) : String := if b then "ok" else "fail"
+
+def resTok : GoM Bytes → String
+  | .ok b => "ok " ++ Hex.enc b
+  | .error p => panicTok p
+
+open Act.Subst in
+def parseTrimMode (s : String) : Option TrimMode :=
+  if s = "all" then some .all else if s = "left" then some .left else if s = "right" then some .right else none
+
+def takeInts : Nat → List String → Option (List Int × List String)
+  | 0, ts => some ([], ts)
+  | _ + 1, [] => none
+  | n + 1, t :: ts => do
+    let i ← int? t
+    let (r, rest) ← takeInts n ts
+    pure (i :: r, rest)
+
+def takeMatches (width : Nat) : Nat → List String → Option (List (List Int) × List String)
+  | 0, ts => some ([], ts)
+  | n + 1, ts => do
+    let (m, r) ← takeInts width ts
+    let (ms, r') ← takeMatches width n r
+    pure (m :: ms, r')
+
+open Act.Subst in
+/-- one filter from the token stream; the Bool says whether validation accepts it -/
+def parseFilter : List String → Option (Filter × Bool × List String)
+  | "cut" :: m :: c :: r => do
+    let n ← nat? c
+    let mode ← if m = "first" then some CutMode.first else if m = "last" then some CutMode.last else none
+    pure (.cut mode n, decide (n > 0), r)
+  | "trimto" :: m :: h :: r => do
+    let mode ← parseTrimMode m
+    let cs ← bytes? h
+    pure (.trimTo mode cs, true, r)
+  | "trim" :: m :: h :: r => do
+    let mode ← parseTrimMode m
+    let cs ← bytes? h
+    pure (.trim mode cs, true, r)
+  | "re" :: _limit :: sep :: e :: r => do
+    let sepB ← bytes? sep
+    let eonm ← bool? e
+    let (groups, r1) ← listOf nat? r
+    match r1 with
+    | _re :: ns :: nm :: r2 => do
+      let nsub ← nat? ns
+      let nmatch ← nat? nm
+      let (ms, r3) ← takeMatches (2 * (nsub + 1)) nmatch r2
+      -- cfg.VerifyGroupNumbers: unique, not more than the regexp has, each within 0..nsub
+      let valid := groups.Nodup && decide (groups.length ≤ nsub) && groups.all (fun g => decide (g ≤ nsub))
+      pure (.re groups sepB eonm ms, valid, r3)
+    | _ => none
+  | _ => none
+
+open Act.Subst in
+def parseFilters : Nat → List String → Option (List Filter × Bool × List String)
+  | 0, ts => some ([], true, ts)
+  | n + 1, ts => do
+    let (f, v, r) ← parseFilter ts
+    let (fs, vs, r') ← parseFilters n r
+    pure (f :: fs, v && vs, r')
+
+def handleSubst (args impl : List String) : Option (String × String) :=
+  match args with
+  | nf :: rest => do
+    let n ← nat? nf
+    let (fs, valid, r) ← parseFilters n rest
+    match r with
+    | [srcH] => do
+      let src ← bytes? srcH
+      let m := if valid then resTok (Act.Subst.run fs src) else "cfg-rejected"
+      pure (m, okTok (SpecC13.coreOk impl))
+    | _ => none
+  | _ => none
+
+def utf8One (src : Bytes) : Option String :=
+  let cfg : Act.Utf8Bytes.Cfg := ⟨false, fun _ => true⟩
+  match Act.Utf8Bytes.convert cfg src with
+  | .ok none => some (Hex.enc src)
+  | .ok (some b) => some (Hex.enc b)
+  | .error _ => none
+
+def handleUtf8 (args impl : List String) : Option (String × String) := do
+  let (srcs, r) ← listOf bytes? args
+  if r ≠ [] then none
+  let outs := srcs.map utf8One
+  let m := if outs.all Option.isSome then unwords ("ok" :: outs.filterMap id) else panicTok .bounds
+  pure (m, okTok (SpecC13.coreOk impl))
+
+/-- c13.tok <mask> <data hex>: bit (p-1) of mask enables pattern p -/
+def handleTok (args impl : List String) : Option (String × String) :=
+  match args with
+  | [mk, dh] => do
+    let mask ← nat? mk
+    let data ← bytes? dh
+    let has : Nat → Bool := fun p => p ≥ 1 && (mask >>> (p - 1)) % 2 == 1
+    pure (resTok (Act.HashTok.normalize has data), okTok (SpecC13.coreOk impl))
+  | _ => none
+
+def takePath (ts : List String) : Option (List Bytes × List String) := listOf bytes? ts
+
+def takePairs : Nat → List String → Option (List (List Bytes × Bytes) × List String)
+  | 0, ts => some ([], ts)
+  | n + 1, ts => do
+    let (p, r) ← takePath ts
+    match r with
+    | nm :: r1 => do
+      let name ← bytes? nm
+      let (ps, r2) ← takePairs n r1
+      pure ((p, name) :: ps, r2)
+    | [] => none
+
+def takePaths : Nat → List String → Option (List (List Bytes) × List String)
+  | 0, ts => some ([], ts)
+  | n + 1, ts => do
+    let (p, r) ← takePath ts
+    let (ps, r2) ← takePaths n r
+    pure (p :: ps, r2)
+
+def treeTok (t : JTree) : String := "ok " ++ t.enc
+
+def handleRename (args impl : List String) : Option (String × String) :=
+  match args with
+  | pv :: nn :: rest => do
+    let preserve ← bool? pv
+    let n ← nat? nn
+    let (pairs, r) ← takePairs n rest
+    let (tree, r2) ← JTree.parse? r
+    if r2 ≠ [] then none
+    pure (treeTok (Act.Fields.rename preserve pairs tree), okTok (SpecC13.coreOk impl))
+  | _ => none
+
+def handleMove (args impl : List String) : Option (String × String) :=
+  match args with
+  | "allow" :: rest => do
+    let (target, r) ← takePath rest
+    match r with
+    | nn :: r1 => do
+      let n ← nat? nn
+      let (fields, r2) ← takePaths n r1
+      let (tree, r3) ← JTree.parse? r2
+      if r3 ≠ [] then none
+      let m := match Act.Fields.moveAllow target fields tree with
+        | .ok t => treeTok t
+        | .error p => panicTok p
+      pure (m, okTok (SpecC13.coreOk impl))
+    | [] => none
+  | "block" :: tk :: nn :: rest => do
+    let tkey ← bytes? tk
+    let n ← nat? nn
+    let (blocked, r) ← (Tok.listOf bytes? (toString n :: rest))
+    let (tree, r2) ← JTree.parse? r
+    if r2 ≠ [] then none
+    pure (treeTok (Act.Fields.moveBlock tkey blocked tree), okTok (SpecC13.coreOk impl))
+  | _ => none
+
+def handle (cmd : String) (args impl : List String) : Option (String × String) :=
+  if cmd = "c13.act" then
+    some (unwords impl, okTok (SpecC13.actOk impl))
+  else if cmd = "c13.pipe" ∨ cmd = "c13.pipeout" then
+    some (unwords impl, okTok (SpecC13.pipeOk impl))
+  else if cmd = "c13.registry" then
+    some (unwords args, okTok (args == impl))
+  else if cmd = "c13.subst" then handleSubst args impl
+  else if cmd = "c13.utf8" then handleUtf8 args impl
+  else if cmd = "c13.tok" then handleTok args impl
+  else if cmd = "c13.rename" then handleRename args impl
+  else if cmd = "c13.move" then handleMove args impl
+  else none
 
 end FileD.DrvC13
